@@ -224,7 +224,7 @@ def run(ctx):
                 '(4) envelopes of random real signals (noise, walks, tones, AM/FM, plateaus, integers) x {splrep,pchip,mono_pchip} x '
                 '{upper,lower,combined} x pad 1..4 x parabolic on/off vs the interpolant rebuilt from the returned extrema; '
                 'non-trivial = at least two extrema of the requested kind' % maxlen)
-    ctx.proof(extra=['props/Prop_Tie_Extrema.v'])  # translation tie: program regenerated from the source + refinement theorems
+    ctx.proof(extra=['props/Prop_Tie_Extrema.v', 'props/Prop_Tie_Parab.v'])  # translation tie: program regenerated from the source + refinement theorems
     jobs = []
     for ln in range(3, maxlen + 1):
         jobs += [(ln, s, n) for s, n in common.enum_blocks(3 ** ln, 243)]
